@@ -186,7 +186,7 @@ class Executor:
         if k == "set_yml":
             return w.op_set_yml(op["patterns"], op.get("verbose"), op.get("where", ""))
         if k == "set_gitignore":
-            return w.op_set_gitignore(op["patterns"], op.get("where", ""))
+            return w.op_set_gitignore(op["patterns"], op.get("where", ""), op.get("eol", "\n"), op.get("final_eol", True))
         if k == "set_cli":
             w.cli_excludes = w._encodable(list(op["patterns"]))
             return {}
